@@ -428,7 +428,15 @@ def apply_delta(key, delta, data):
     # Assimilate new data
     if getattr(delta, 'added', False):
         if key != WORKFLOW:
-            data[key].update({e.id: e for e in delta.added})
+            # NOTE: store copies of the added elements, not references into
+            # the delta message. Otherwise merging the "updated" elements
+            # (below) also modifies the "added" part of the delta, which the
+            # scheduler has yet to publish (clients would then apply those
+            # updates twice, duplicating items of repeated fields).
+            data[key].update({
+                e.id: reset_protobuf_object(MESSAGE_MAP[key], e)
+                for e in delta.added
+            })
         elif delta.added.ListFields():
             data[key].CopyFrom(delta.added)
 
